@@ -105,6 +105,19 @@ def complement_removal(prog: Program, rep, RID: str):
                 strict = isinstance(p.ops[0], (ast.Gt, ast.Lt, ast.NotEq))
     if strict is None:
         raise AnalysisError(f"complement removal: cannot interpret the test `{norm(t)}`")
+    # with multiplicities x = 2*g1 does not make total - x a sum of elements: the removal is admissible for max_multiplicity == 1 only
+    from sa import boolnf as B
+    from rules.semantic import enclosing_tests
+    ctx = B.mk_and([B.parse_pol(tt, pol) for tt, pol in enclosing_tests(f.node, hit)] + [B.parse(t)])
+    single_use = B.implies(ctx, B.parse(ast.parse("self.max_multiplicity == 1", mode="eval").body)) or \
+        B.implies(ctx, B.parse(ast.parse("max_multiplicity == 1", mode="eval").body))
+    keym = "MinGenSet.__init__:complement-removal-multiplicity"
+    if single_use:
+        rep.ok(RID, keym, "the complement is removed only when every element is used at most once (max_multiplicity == 1)", f.loc(hit))
+    else:
+        rep.violation(RID, keym, f"total - x is removed under `{norm(t)}` whatever max_multiplicity is: with multiplicities above 1 the number x = 2*g1 does not make "
+                      "total - x a sum of elements, so the returned set need not generate the removed numbers (MinGenSet([2,8,4,6], 10, max_multiplicity=2) "
+                      "returned [2, 8], which cannot generate 6)", f.loc(hit))
     if member and strict:
         rep.ok(RID, key, "total - x is removed only if present and strictly different from x", f.loc(hit), sample={"test": norm(t)})
     else:
@@ -129,4 +142,9 @@ def check(prog: Program, rep):
     rep.rule("C15.R6", "with multiplicities the bound of the products x*g covers max(numbers), not only the total", floor=2)
     from rules.bounds import product_covers_rhs
     product_covers_rhs(prog, rep, "C15.R6")
+    rep.rule("C15.R7", "values read from the solver are rounded (never truncated) and binaries are read by threshold (never == 1); data in equality rows is "
+             "converted to Python numbers", floor=4)
+    from rules.values import solver_value_reads, data_rhs_converted
+    solver_value_reads(prog, rep, "C15.R7", ["MinGenSet", "MinSetCover"])
+    data_rhs_converted(prog, rep, "C15.R7", {"MinGenSet": ["_create_solver", "_encode_partition_constraints"]})
 
